@@ -413,3 +413,61 @@ Section Go.
       cbn [mk_chain]. destruct (create_dir s1 v n1 last perm) as [s2 n2]. reflexivity.
   Qed.
 End Go.
+
+(* ---- the step ----------------------------------------------------------------------------------------------------------------------- *)
+Theorem step_mkdir_all (s : fsys) (sv : sview) (perm : N) (done rest : list str) (par : nat) :
+  let v := sv_view sv in
+  v_os v = Linux -> us_admin (v_user v) = true ->
+  Forall good_comp (done ++ rest) ->
+  dir_at s v done par ->
+  (forall c r, rest = c :: r -> alookup str_eqb c (children (f_heap s) par) = None) ->
+  has (m_mode (meta_of (f_heap s) par)) MODE_DIR = true ->
+  (rest <> [] -> is_setgid (m_mode (meta_of (f_heap s) par)) = false) ->
+  length (done ++ rest) < SEARCH_FUEL ->
+  let p := abs_path (done ++ rest) in
+  (fst (mkdir_all s v p perm), proj_res Linux (snd (mkdir_all s v p perm))) = go_mkdir_all (S (length p)) s sv p perm
+  /\ go_mkdir_all (S (length p)) s sv p perm = (fst (mk_chain s v par rest perm), SOk).
+Proof.
+  intros v Hos Ha Hg Hd Hfr Hbit Hsg Hlen p.
+  assert (Hok : Forall comp_ok (done ++ rest)) by (eapply Forall_impl; [|exact Hg]; apply good_comp_ok).
+  assert (Hw : length (done ++ rest) < WALK_FUEL) by (unfold SEARCH_FUEL, WALK_FUEL in *; lia).
+  assert (Hf : length rest < S (length p)).
+  { pose proof (abs_path_len _ Hok) as Hl. rewrite app_length in Hl. unfold p. lia. }
+  pose proof (go_chain s sv perm done par Hos Ha Hd Hbit rest Hg Hfr Hsg Hw _ Hf) as G.
+  split; [|exact G]. unfold p in *. rewrite G.
+  rewrite (impl_mkdir_all s v perm done rest par Hos Ha Hg Hd Hfr Hlen). reflexivity.
+Qed.
+
+(* ---- the hypotheses are satisfiable: MkdirAll "/d/e/x/missing/d" on the example tree creates three directories ---------------------------- *)
+Module StepMkdirAllExamples.
+  Import WalkSymExamples.
+
+  Ltac good_tac :=
+    repeat constructor; try discriminate;
+    let x := fresh "x" in let Hx := fresh "Hx" in
+    intros x Hx; cbn in Hx; repeat (destruct Hx as [Hx|Hx]; [subst x; discriminate|]); destruct Hx.
+
+  Example mkdir_all_instance :
+    let p := abs_path ([s_d; s_e] ++ [s_x; s_missing; s_d]) in
+    (fst (mkdir_all tree_fs adminv p 493), proj_res Linux (snd (mkdir_all tree_fs adminv p 493)))
+    = go_mkdir_all (S (length p)) tree_fs (sv_of adminv) p 493
+    /\ go_mkdir_all (S (length p)) tree_fs (sv_of adminv) p 493
+       = (fst (mk_chain tree_fs adminv 2 [s_x; s_missing; s_d] 493), SOk).
+  Proof.
+    apply (step_mkdir_all tree_fs (sv_of adminv) 493 [s_d; s_e] [s_x; s_missing; s_d] 2).
+    - reflexivity.
+    - reflexivity.
+    - good_tac.
+    - split; reflexivity.
+    - intros c r [= <- <-]. reflexivity.
+    - reflexivity.
+    - intros _. reflexivity.
+    - unfold SEARCH_FUEL. cbn [length app]. lia.
+  Qed.
+
+  (* and the new directories are there: the walk down the created chain ends in the last new node *)
+  Example mkdir_all_created :
+    dwalk (f_heap (fst (mkdir_all tree_fs adminv (abs_path [s_d; s_e; s_x; s_missing; s_d]) 493))) root_user 0
+          [s_d; s_e; s_x; s_missing; s_d] = Some (length tree + 2).
+  Proof. vm_compute. reflexivity. Qed.
+End StepMkdirAllExamples.
